@@ -672,10 +672,7 @@ impl Datamodel for RFsmExpressionDatamodel {
         //  4. Return true.
         let r = match self.execute_internal(script, false) {
             Ok(val) => match val.arc.lock().unwrap().deref() {
-                Data::Integer(v) => {
-                    // NaN Test
-                    Ok(!(v != v || v.abs() == 0))
-                }
+                Data::Integer(v) => Ok(*v != 0),
                 Data::Double(v) => Ok(!(v != v || v.abs() == 0f64)),
                 Data::Source(s) => Ok(!s.is_empty()),
                 Data::String(s) => Ok(!s.is_empty()),
